@@ -1765,6 +1765,13 @@ func (n *node) spawn(factory gen.ProcessFactory, options gen.ProcessOptionsExtra
 
 func (n *node) unregisterProcess(p *process, reason error) {
 	n.processes.Delete(p.pid)
+	registered := p.registered.Load()
+	if registered {
+		// release the name before anybody is told about the termination:
+		// a supervisor restarts the child under the same name as soon as
+		// it gets the exit signal
+		n.names.Delete(p.name)
+	}
 	n.RouteTerminatePID(p.pid, reason)
 	// drop the relations in which this process was the requester
 	n.targetManager.CleanupConsumer(p.pid)
@@ -1775,8 +1782,7 @@ func (n *node) unregisterProcess(p *process, reason error) {
 	}
 	n.log.Trace("...unregisterProcess %s", p.pid)
 
-	if p.registered.Load() {
-		n.names.Delete(p.name)
+	if registered {
 		pname := gen.ProcessID{Name: p.name, Node: n.name}
 		n.RouteTerminateProcessID(pname, reason)
 	}
